@@ -597,7 +597,9 @@ func (w *world) run(cond func() bool, deadline time.Duration) stopReason {
 			}
 			continue
 		}
-		// nothing can run now: advance virtual time
+		// nothing can run now: advance virtual time. No task "continues" across the jump: which task happened to run
+		// last before it must not decide who is served first at the next instant (twin runs differ in exactly that).
+		s.last = nil
 		if cyc := w.lockCycle(); cyc != "" {
 			prop := "C20"
 			if w.deadlockProp != "" {
